@@ -494,7 +494,7 @@ where
                     } else {
                         // panics raised inside dependencies (no #[track_caller]) are attributed to
                         // the entry point's file; the real location is in the witness
-                        let f = if p.file.starts_with("/repo/") { file.clone() } else { entry_file(entry).to_string() };
+                        let f = if in_repo(&p.file) { file.clone() } else { entry_file(entry).to_string() };
                         format!("C12/{entry}/panic@{f} {}", case.desc.curve)
                     };
                     rep.violation(
